@@ -151,6 +151,9 @@ def _get_timestamp_format(value):
 
 
 def _datetime_obj_factory(value, fmt):
+    # strptime is more lenient than HL7: it also accepts blank-padded numbers and non-ASCII digits
+    if not re.match(r'^[0-9]+(\.[0-9]+)?$', value):
+        raise ValueError('{0} is not an HL7 valid date value'.format(value))
     try:
         dt_value = datetime.strptime(value, fmt)
     except ValueError:
